@@ -68,6 +68,27 @@ def gen(tier, rng):
     return lits
 
 
+# positions other than `Schreibe <literal>.` in which a literal may stand: a literal that denotes no value must be rejected in every one
+CONTEXTS = {
+    "int": {
+        "postfix-repetition": 'Schreibe "b" %s Mal.', "repetition": 'Wiederhole:\n\tSchreibe "a".\n%s Mal.', "list-fill-count": "Die Zahlen Liste l ist %s Mal 0.",
+        "list-fill-value": "Die Zahlen Liste l ist 2 Mal %s.", "for-from": "Für jede Zahl i von %s bis 1, mache:\n\tVerlasse die Schleife.",
+        "for-to": "Für jede Zahl i von 1 bis %s, mache:\n\tVerlasse die Schleife.", "for-step": "Für jede Zahl i von 1 bis 2 mit Schrittgröße %s, mache:\n\tVerlasse die Schleife.",
+        "index": "Die Zahl x ist (eine Liste, die aus 1, 2 besteht) an der Stelle %s.", "constant": "Die Konstante K ist %s.", "list-element": "Die Zahlen Liste l ist eine Liste, die aus 1, %s besteht.",
+        "operand": "Die Zahl x ist 1 plus %s.", "condition": "Wenn 1 gleich %s ist, Schreibe 1.", "shift": "Die Zahl x ist 5 um %s Bit nach links verschoben.",
+        "return": 'Die Funktion f mit dem Parameter a vom Typ Zahl, gibt eine Zahl zurück, macht:\n\tGib %s zurück.\nUnd kann so benutzt werden:\n\t"f <a>"',
+        "field-default": 'Wir nennen die Kombination aus\n\tder Zahl x mit Standardwert %s,\neinen P, und erstellen sie so:\n\t"ein P"',
+        "argument": 'Die Funktion f mit dem Parameter a vom Typ Zahl, gibt eine Zahl zurück, macht:\n\tGib a zurück.\nUnd kann so benutzt werden:\n\t"f <a>"\nDie Zahl x ist f %s.',
+        "slice": "Die Zahlen Liste l ist (eine Liste, die aus 1, 2 besteht) bis zum %s. Element.", "assignment": "Die Zahl x ist 0.\nSpeichere %s in x.", "compound": "Die Zahl x ist 0.\nErhöhe x um %s.",
+        "cast": "Der Text t ist %s als Text.", "while": "Solange 1 größer als %s ist, Verlasse die Schleife.",
+    },
+    "char": {"declaration": "Der Buchstabe c ist %s.", "concat": 'Der Text t ist "a" verkettet mit %s.', "list-element": "Die Buchstaben Liste l ist eine Liste, die aus 'a', %s besteht.",
+             "comparison": "Wenn 'a' gleich %s ist, Schreibe 1.", "index-assign": 'Der Text t ist "abc".\nSpeichere %s in t an der Stelle 1.'},
+    "text": {"declaration": "Der Text t ist %s.", "concat": 'Der Text t ist "a" verkettet mit %s.', "comparison": 'Wenn "a" gleich %s ist, Schreibe 1.',
+             "list-element": 'Die Text Liste l ist eine Liste, die aus "a", %s besteht.', "constant": "Die Konstante K ist %s."},
+}
+
+
 def run(tier):
     ck = Check("C19", tier)
     rng = vlib.rng("c19")
@@ -106,6 +127,33 @@ def run(tier):
     recs = []
     for i, (kind, s) in enumerate(lits):
         recs.append(dict(e="lit", kind=kind, src=[ord(c) for c in s], accepted=bool(accepted[i] and i in outs), out=[ord(c) for c in outs.get(i, "")]))
+    # the same literals in the other positions: every literal the plain position rejected (and every out-of-range integer), a few accepted ones
+    ctx_items = []
+    for i, (kind, s_) in enumerate(lits):
+        if kind not in CONTEXTS:
+            continue
+        suspicious = (not accepted[i]) or (kind == "int" and int(s_) >= 2 ** 63)
+        if suspicious or (kind == "int" and s_ in ("0", "3", "007", "255")) or rng.random() < 0.01:
+            if kind != "int" and not suspicious and rng.random() < 0.5:
+                continue
+            for cn, tpl in CONTEXTS[kind].items():
+                if kind != "int" and tier == "quick" and rng.random() < 0.5:
+                    continue
+                ctx_items.append((i, cn, 'Binde "Duden/Ausgabe" ein.\n' + tpl % s_ + "\n"))
+    cans = pool.run([dict(files={"m.ddp": src}, main="m.ddp") for _, _, src in ctx_items])
+    nctx = 0
+    for (i, cn, src), a in zip(ctx_items, cans):
+        kind, s_ = lits[i]
+        if not a["runs"] or a["runs"][0].get("panic") or a["runs"][0].get("err"):
+            ck.fail("C19:crash:%s:%s:%s" % (kind, cn, s_.encode().hex()[:60]), "frontend crashed on literal %r in position %s: %s" % (s_, cn, json.dumps(a)[:300]), dict(kind=kind, src=s_, source=src))
+            continue
+        acc = not any(d["lvl"] == "err" for d in a["runs"][0]["diags"]) and not a["runs"][0].get("faulty")
+        recs.append(dict(e="ctx", kind=kind, src=[ord(c) for c in s_], ctx=cn, accepted=acc))
+        lits.append((kind + "@" + cn, s_))
+        outs[len(lits) - 1] = None
+        nctx += 1
+    ck.cov["literals_in_other_positions"] = nctx
+    ck.cov["positions"] = {k: sorted(v) for k, v in CONTEXTS.items()}
     orig = vlib.split_chunks
     try:
         vlib.split_chunks = lambda records, n, is_start=None: [(i, records[i:i + max(1, len(records) // n + 1)]) for i in range(0, len(records), max(1, len(records) // n + 1))]
@@ -121,6 +169,10 @@ def run(tier):
     ck.cov["tlc_runs"].append(dict(name="LiteralTrace", lines=st["lines"], wall_s=round(st["wall"], 1)))
     for i in res["bad"]:
         kind, s = lits[i]
+        if "@" in kind:
+            ck.fail("C19:%s:%s" % (kind, s.encode().hex()[:80]), "literal %r denotes no value (Literals.tla) but is accepted in the position %s" % (s, kind.split("@")[1]),
+                    dict(kind=kind, src=s, source='Binde "Duden/Ausgabe" ein.\n' + CONTEXTS[kind.split("@")[0]][kind.split("@")[1]] % s + "\n"))
+            continue
         ck.fail("C19:%s:%s" % (kind, s.encode().hex()[:80]), "literal %r (%s): accepted=%s printed %r contradicts Literals.tla" % (s, kind, recs[i]["accepted"], outs.get(i)), dict(kind=kind, src=s, accepted=recs[i]["accepted"], out=outs.get(i)))
     ck.sample(dict(kind=lits[5][0], src=lits[5][1], accepted=accepted[5], out=outs.get(5)))
     ck.sample(dict(kind=lits[-5][0], src=lits[-5][1], accepted=accepted[-5], out=outs.get(len(lits) - 5)))
